@@ -1176,8 +1176,9 @@ def coefs(T, P, mass, Mol_wt, Pc, Tc, omega, delta_in, Aij, Bij,
     aTk = 0.45724 * RU**2 * Tc**2 / Pc * alpha
     bk = 0.0778 * RU * Tc / Pc
     
-    # Initialize the output vector for delta to the input values
-    delta = delta_in
+    # Initialize the output vector for delta to the input values (work on a
+    # copy so that the caller's matrix is not altered below)
+    delta = np.copy(delta_in)
     
     # Get the temperature-dependent binary interaction coefficients (if 
     # the user provided the group contributions)
